@@ -261,7 +261,8 @@ func (vc *VC) execInstr(fr *Frame, st *State, pc string, in ssa.Instruction) {
 	case *ssa.MakeInterface:
 		x := vc.value(fr, st, t.X)
 		switch t.X.Type().Underlying().(type) {
-		case *types.Pointer:
+		case *types.Pointer, *types.Map:
+			// reference-like values are their own interface value (a type assertion hands the reference back)
 			tag := vc.eng.typeTag(t.X.Type())
 			vc.assume(pc, fmt.Sprintf("(=> (not (= %s 0)) (= (dyntype %s) %d))", x.S, x.S, tag))
 			fr.vals[t] = Sym{T: Term{S: x.S, Sort: SInt, T: t.Type()}}
